@@ -244,7 +244,7 @@ def conc_scripts(q):
     return [dict(steps=x) for x in out]
 
 
-def conc_record(c, binp, scripts, name, procs=8):
+def conc_record(c, binp, scripts, name, procs=16):
     """Run the scripts (split over processes: the goroutine dump is process wide).  Returns {sid: [lines]}."""
     dcfg = drv_cfg(FIXED, INF_NS, INF_NS, check_ns=10**6)
     res = run_driver(c, binp, "timed_like_conc", dcfg, scripts, name, users=CONC_USERS, procs=procs, timeout=900)
@@ -272,8 +272,10 @@ def conc_record(c, binp, scripts, name, procs=8):
 def conc_judge(c, by_sid, styles, clauses, label):
     """TLC looks for an execution explaining every trace.  Returns the sids it could not explain."""
     rejected = []
-    for attempt in range(6):
+    for attempt in range(len(by_sid) + 1):
         keep = [sid for sid in sorted(by_sid) if sid not in rejected]
+        if not keep:
+            return rejected
         lines, owner = [], []
         for sid in keep:
             for e in by_sid[sid][1]:
@@ -306,10 +308,12 @@ def validate_conc(c, binp, scripts, name, confirm=True):
         if conc_judge(c, one, both, [], "conc_any_%s_%d" % (name, sid)):
             c.model_drift("concurrent trace not explainable by the lock-region model even without the statement's clauses: %s" % evs)
             continue
-        failing = [CLAUSES[k] for k in CLAUSES if conc_judge(c, one, both, [k], "conc_%s_%s_%d" % (k, name, sid))]
+        failing = []
+        if len(c.violations) < 2:       # name the clauses for the first reports only (one small TLC run per clause)
+            failing = [CLAUSES[k] for k in CLAUSES if conc_judge(c, one, both, [k], "conc_%s_%s_%d" % (k, name, sid))]
         what = ("no execution of the lock-region model on which the statement holds explains the real run "
-                "(clauses that cannot hold: %s): %s" % (", ".join(failing) or "only jointly", evs))
-        if confirm:
+                "(clauses that cannot hold: %s): %s" % (", ".join(failing) or "not analysed / only jointly", evs))
+        if confirm and not c.violations:    # once one rejection is confirmed the rest is reported as observed
             again = conc_record(c, binp, [script, script], "%s_confirm%d" % (name, sid), procs=2)
             if not conc_judge(c, again, both, list(CLAUSES), "conc_confirm_%s_%d" % (name, sid)):
                 c.log("unconfirmed rejection of concurrent script %d (not repeated in 2 re-runs)" % sid)
